@@ -19,8 +19,11 @@ Allowed(m, o) ==
                      /\ (o.variant = "shared" => m.s.shared = 1)
                      /\ (o.variant = "subid" => m.s.subid = 1))
 
-\* conservative: do not judge size-related rejections unless the limit is far away
-SizeIrrelevant(m, o) == ~m.s.known \/ m.s.mps >= o.len + 4000
+\* size-related rejections are judged only when the packet fits whatever the encoding: the limit is far away, or - for a
+\* PUBLISH carrying nothing but topic and payload - even its largest encoding (four length bytes, topic AND alias property) fits
+SizeIrrelevant(m, o) == \/ ~m.s.known
+                        \/ m.s.mps >= o.len + 4000
+                        \/ (o.kind = "pub" /\ o.variant = "" /\ o.len + Len(o.topic) + 13 <= m.s.mps)
 
 Apply(m, e) ==
     IF e.ev = "Cfg" THEN [Init0 EXCEPT !.run = e.run, !.errs = m.errs, !.ver = e.ver]
@@ -36,7 +39,7 @@ Apply(m, e) ==
                   ELSE IF e.specValid = 1 /\ ((e.specShared = 0 /\ e.codeShared = 1) \/ (e.specWild = 0 /\ e.codeWild = 1)) THEN B("valid-rejected")
                   ELSE m
            [] e.ev = "Submit" ->
-                  LET m2 == [m EXCEPT !.ops = Put(@, e.op, [kind |-> e.kind, qos |-> e.qos, retain |-> e.retain, variant |-> e.variant, len |-> e.len])]
+                  LET m2 == [m EXCEPT !.ops = Put(@, e.op, [kind |-> e.kind, qos |-> e.qos, retain |-> e.retain, variant |-> e.variant, len |-> e.len, topic |-> e.topic])]
                   IN IF e.variant \in StaticInvalid THEN [Breach(m2, e, "timing") EXCEPT !.skip = FALSE] ELSE m2
            [] e.ev = "Reject" -> IF e.variant \notin StaticInvalid THEN Breach(m, e, "valid-rejected") ELSE m
            [] e.ev = "Settings" -> [m EXCEPT !.s = [known |-> TRUE, mqos |-> e.mqos, ret |-> e.ret, wild |-> e.wild, shared |-> e.shared, subid |-> e.subid, mps |-> e.mps]]
